@@ -41,6 +41,11 @@ def plan_C01(chk, tier, seed):
     cfgs = ["none", "all"] if tier == "quick" else ALL8
     vectors(chk, "MC_Requests", "MC_Cases", cfgs, ["C01"],
             ["TypeOK", "DecodeTotal", "DecodeFaithful", "KeyAttribution", "HostCanonical", "Emit"])
+    # the documented lossy members inside complete requests: names cut at 64 bytes for every
+    # width pattern straddling the cut, icons around 128 bytes
+    simple(chk, "MC_Truncate", ["all"] if tier == "quick" else ["none", "all"], ["C01"],
+           ["TypeOK", "DecodeTotal", "DecodeFaithful", "Emit"], cases="C01_Cases",
+           extra_constants="    Deep = %s\n" % ("TRUE" if tier == "thorough" else "FALSE"), workers=14)
     return ("every subset of optional parameters of every parameter-bearing command, every subset of optional "
             "members of every nested map, full requests, every sub-command; TLC checks DecodeFaithful / "
             "KeyAttribution on the model and emits one vector per case, replayed through "
@@ -387,11 +392,12 @@ PLANS.update({"C15": plan_C15, "C16": plan_C16})
 def drive_and_validate(chk, cfg, driver, n, seed, props_by_op, run, shards=4):
     """impl -> spec: run a seeded driver against the real code, validate every event with TLC."""
     binp = build(cfg)
+    os.makedirs(os.path.join(WORK, "tlc"), exist_ok=True)
     out = os.path.join(WORK, "tlc", run + ".events.ndjson")
     r = sh([binp, "drive", driver, str(seed), str(n), out])
     aborted = r.returncode < 0 or r.returncode in (134, 139)
     if r.returncode != 0 and not aborted:
-        raise ToolError("driver %s failed: %s" % (driver, r.stdout[-2000:]))
+        raise ToolError("driver %s failed: rc=%s %s" % (driver, r.returncode, r.stdout[-2000:]))
     events = []
     for l in open(out):
         try:
@@ -538,10 +544,13 @@ def plan_C04(chk, tier, seed):
         runs = []
         for module, cases, extra in (("MC_Faults", "MC_Cases", '    SeedKinds = {"min", "full"}\n'),
                                      ("MC_Lattice", "MC_Cases", ""),
+                                     ("MC_Requests", "MC_Cases", ""),
+                                     ("MC_Filter", "MC_Cases", "    MaxP = 4\n    MaxF = 4\n"),
+                                     ("MC_Unknown", "C04_Cases", "    Deep = %s\n" % ("TRUE" if tier == "thorough" else "FALSE")),
                                      ("MC_Truncate", "C04_Cases", "    Deep = FALSE\n")):
             run = "C04.%s.%s" % (module, cfg)
-            if module == "MC_Truncate" and cfg != "all":
-                continue          # text truncation does not depend on the feature configuration
+            if module in ("MC_Truncate", "MC_Unknown", "MC_Filter") and cfg != "all" and tier == "quick":
+                continue          # these corpora hardly depend on the feature configuration
             r = tlc(module, scenario_cfg(cfg, cases, ["TypeOK", "DecodeTotal", "Emit"], 1, extra), run, workers=14)
             if not r["ok"]:
                 raise ToolError("TLC %s failed:\n%s" % (run, "\n".join(r["log"][-30:])))
@@ -556,7 +565,8 @@ def plan_C04(chk, tier, seed):
             "parameter-bearing commands to %d bytes) with DecodeTotal / PrefixDeterminism / LiveIsRejected and emits the "
             "table prefix -> outcome; the harness decodes EVERY byte string up to that length with the real decoder "
             "(panics and aborts are data) and judges it by table lookup; (ii) every single structural fault and every "
-            "limit lattice point of C05 / C12 and the text-capacity corpus of C13 (names whose characters straddle the "
+            "limit lattice point of C05 / C12, the request corpus of C01, the list corpus of C14, unknown members "
+            "of every kind of value (C06) and the text-capacity corpus of C13 (names whose characters straddle the "
             "64-byte cut in every width pattern, icons around 128 bytes); (iii) seeded byte-level mutations (bit flips, interesting bytes, insertions, "
             "deletions, truncations, duplicated and spliced slices, +-1 on length heads) of those messages, each "
             "decoded twice and validated by the trace specification (outcome, determinism, status set, model equality)" % depth)
